@@ -1,6 +1,7 @@
 (* C13 — Applying a quick fix yields valid code and removes the reported problem.
    Builders' lexical contracts + the application algebra; "still parses" itself is delegated to the real
-   parser in the correspondence stage (tools/props_c13.py).  `_refuted` = the current code is defective. *)
+   parser in the correspondence stage (tools/props_c13.py).  The builders are those of the repaired tree;
+   `_before_fix_refuted` = historic witness of a defect of the builder before its `fix:` commit. *)
 From V Require Import Text.FixApply Text.FixBuilders.
 From Coq Require Import String.
 Open Scope N_scope.
@@ -45,18 +46,22 @@ Proof. exact apply_sorted_valid. Qed.
 Print Assumptions C13_apply_sorted_first.
 
 (* ---------------- jsx-curly-braces *)
-Theorem C13_curly_attr_fix_wellformed : forall v, ~ In DQ v -> jsx_attr_string (curly_attr_fix v).
+(* every offered attribute fix is ONE attribute string *)
+Theorem C13_curly_attr_fix_wellformed : forall v s, curly_attr_fix v = Some s -> jsx_attr_string s.
 Proof. exact curly_attr_fix_wellformed. Qed.
 Print Assumptions C13_curly_attr_fix_wellformed.
 
-Theorem C13_curly_attr_fix_refuted : exists v, ~ jsx_attr_string (curly_attr_fix v).
-Proof. exact curly_attr_fix_refuted. Qed.
-Print Assumptions C13_curly_attr_fix_refuted.
+Theorem C13_curly_attr_fix_none_iff : forall v, curly_attr_fix v = None <-> In DQ v /\ In SQ v.
+Proof. exact curly_attr_fix_none_iff. Qed.
+Print Assumptions C13_curly_attr_fix_none_iff.
 
-Theorem C13_curly_attr_fix_repaired_wellformed : forall v s,
-  curly_attr_fix_repaired v = Some s -> jsx_attr_string s.
-Proof. exact curly_attr_fix_repaired_wellformed. Qed.
-Print Assumptions C13_curly_attr_fix_repaired_wellformed.
+Theorem C13_curly_attr_change_range : forall s e v c, curly_attr_change s e v = Some c -> fst c = (s, e).
+Proof. exact curly_attr_change_range. Qed.
+Print Assumptions C13_curly_attr_change_range.
+
+Theorem C13_curly_attr_fix_before_fix_refuted : exists v, ~ jsx_attr_string (curly_attr_fix_before_fix v).
+Proof. exact curly_attr_fix_before_fix_refuted. Qed.
+Print Assumptions C13_curly_attr_fix_before_fix_refuted.
 
 Theorem C13_curly_child_fix_wellformed : forall v s, curly_child_fix v = Some s -> jsx_text s.
 Proof. exact curly_child_fix_wellformed. Qed.
@@ -78,59 +83,67 @@ Print Assumptions C13_entities_fix_removes.
 (* ---------------- jsx-boolean-value *)
 Theorem C13_boolean_fix_result : forall pre name rest post,
   apply_fix (utf8 (pre ++ name ++ rest ++ post))
-            [ch_bytes (boolean_change (Some (bytes (pre ++ name))) (bytes (pre ++ name)) (bytes (pre ++ name) + bytes rest))]
-  = Some (utf8 (pre ++ name ++ post)).
+            [ch_bytes (boolean_change (Some (bytes (pre ++ name))) (bytes (pre ++ name)) (bytes (pre ++ name) + bytes rest) (hd_error post))]
+  = Some (utf8 (pre ++ name ++ (if glued_next (hd_error post) then [32] else []) ++ post)).
 Proof. exact boolean_fix_result. Qed.
 Print Assumptions C13_boolean_fix_result.
 
-Theorem C13_boolean_fix_glues_refuted :
+(* what follows the attribute name afterwards can never continue the name *)
+Theorem C13_boolean_fix_next_char : forall pre name rest post,
+  exists tail,
+    apply_fix (utf8 (pre ++ name ++ rest ++ post))
+              [ch_bytes (boolean_change (Some (bytes (pre ++ name))) (bytes (pre ++ name)) (bytes (pre ++ name) + bytes rest) (hd_error post))]
+    = Some (utf8 (pre ++ name ++ tail)) /\ glued_next (hd_error tail) = false.
+Proof. exact boolean_fix_next_char. Qed.
+Print Assumptions C13_boolean_fix_next_char.
+
+Theorem C13_boolean_fix_before_fix_refuted :
   exists pre name rest post,
     pre ++ name ++ rest ++ post = s2l "<Foo a:b={true}c:d />" /\
     apply_fix (utf8 (pre ++ name ++ rest ++ post))
-      [ch_bytes (boolean_change (Some (bytes (pre ++ name))) (bytes (pre ++ name)) (bytes (pre ++ name) + bytes rest))]
+      [ch_bytes (boolean_change_before_fix (Some (bytes (pre ++ name))) (bytes (pre ++ name)) (bytes (pre ++ name) + bytes rest))]
     = Some (utf8 (s2l "<Foo a:bc:d />")).
-Proof. exact boolean_fix_glues_refuted. Qed.
-Print Assumptions C13_boolean_fix_glues_refuted.
+Proof. exact boolean_fix_before_fix_refuted. Qed.
+Print Assumptions C13_boolean_fix_before_fix_refuted.
 
-Theorem C13_boolean_fix_repaired_separated : forall pre name rest c post,
-  glued_next (Some c) = true ->
-  apply_fix (utf8 (pre ++ name ++ rest ++ c :: post))
-            [ch_bytes (boolean_change_repaired (Some (bytes (pre ++ name))) (bytes (pre ++ name)) (bytes (pre ++ name) + bytes rest) (Some c))]
-  = Some (utf8 (pre ++ name ++ 32 :: c :: post)).
-Proof. exact boolean_fix_repaired_separated. Qed.
-Print Assumptions C13_boolean_fix_repaired_separated.
-
-(* ---------------- jsx-props-no-spread-multi *)
-Theorem C13_spread_fix_range_ok : forall pre w spread post,
-  is_ascii w = true ->
-  let text := pre ++ [w; LBRACE] ++ spread ++ [RBRACE] ++ post in
-  let s := bytes pre + 2 in let e := s + bytes spread in
-  exists c, spread_change s e = Some c /\
+(* ---------------- jsx-props-no-spread-multi (tokens are inputs) *)
+Theorem C13_spread_fix_range_ok : forall pre gap inner post oe cs,
+  let text := pre ++ (gap ++ [LBRACE] ++ inner ++ [RBRACE]) ++ post in
+  let open := Some (true, bytes (pre ++ gap), oe) in
+  let close := Some (true, cs, bytes pre + bytes (gap ++ [LBRACE] ++ inner ++ [RBRACE])) in
+  exists c, spread_change open close (Some (bytes pre)) = Some c /\
     apply_fix (utf8 text) [ch_bytes c] = Some (utf8 (pre ++ post)) /\
     boundary text (fst (fst c)) /\ boundary text (snd (fst c)).
 Proof. exact spread_fix_range_ok. Qed.
 Print Assumptions C13_spread_fix_range_ok.
 
-Theorem C13_spread_fix_refuted :
+Theorem C13_spread_fix_needs_braces : forall open close prev c,
+  spread_change open close prev = Some c ->
+  exists os oe cs ce, open = Some (true, os, oe) /\ close = Some (true, cs, ce) /\ snd (fst c) = ce /\ snd c = [].
+Proof. exact spread_fix_needs_braces. Qed.
+Print Assumptions C13_spread_fix_needs_braces.
+
+Theorem C13_spread_fix_before_fix_refuted :
   (exists pre spread post c r,
       let text := pre ++ [LBRACE] ++ spread ++ [RBRACE] ++ post in
       braces_balanced text = true /\
-      spread_change (bytes pre + 1) (bytes pre + 1 + bytes spread) = Some c /\
+      spread_change_before_fix (bytes pre + 1) (bytes pre + 1 + bytes spread) = Some c /\
       apply_fix (utf8 text) [ch_bytes c] = Some (utf8 r) /\ braces_balanced r = false) /\
   (exists pre spread post c,
       let text := pre ++ [LBRACE] ++ spread ++ [RBRACE] ++ post in
-      spread_change (bytes pre + 1) (bytes pre + 1 + bytes spread) = Some c /\
+      spread_change_before_fix (bytes pre + 1) (bytes pre + 1 + bytes spread) = Some c /\
       ~ boundary text (fst (fst c))).
-Proof. exact spread_fix_refuted. Qed.
-Print Assumptions C13_spread_fix_refuted.
+Proof. exact spread_fix_before_fix_refuted. Qed.
+Print Assumptions C13_spread_fix_before_fix_refuted.
 
-Theorem C13_spread_fix_repaired_ok : forall pre gap inner post,
-  let text := pre ++ (gap ++ [LBRACE] ++ inner ++ [RBRACE]) ++ post in
-  let c := spread_change_repaired (bytes pre) (bytes pre + bytes (gap ++ [LBRACE] ++ inner ++ [RBRACE])) in
-  apply_fix (utf8 text) [ch_bytes c] = Some (utf8 (pre ++ post)) /\
-  boundary text (fst (fst c)) /\ boundary text (snd (fst c)).
-Proof. exact spread_fix_repaired_ok. Qed.
-Print Assumptions C13_spread_fix_repaired_ok.
+(* the two historic witnesses with the token-based range *)
+Theorem C13_spread_fix_witnesses_now_ok :
+  (exists c, spread_change (Some (true, 9, 10)) (Some (true, 14, 15)) (Some 9) = Some c /\
+     apply_fix (utf8 (s2l "<a {...x}{...x}/>")) [ch_bytes c] = Some (utf8 (s2l "<a {...x}/>"))) /\
+  (exists c, spread_change (Some (true, 12, 13)) (Some (true, 17, 18)) (Some 9) = Some c /\
+     apply_fix (utf8 (s2l "<a {...x}" ++ [12288] ++ s2l "{...x}/>")) [ch_bytes c] = Some (utf8 (s2l "<a {...x}/>"))).
+Proof. exact spread_fix_witnesses_now_ok. Qed.
+Print Assumptions C13_spread_fix_witnesses_now_ok.
 
 (* ---------------- no-window / no-window-prefix / no-node-globals (global) *)
 Theorem C13_global_this_ident : ident GLOBAL_THIS.
@@ -164,26 +177,48 @@ Theorem C13_import_fix_result : forall pre post fk nl,
 Proof. exact import_fix_result. Qed.
 Print Assumptions C13_import_fix_result.
 
+(* an insertion with the newline on the side of the neighbouring code; no import fix in a CommonJS file *)
+Theorem C13_global_change_shape : forall last code_start s e fk,
+  In fk import_kinds ->
+  global_change true last code_start s e fk = None /\
+  exists a t, global_change false last code_start s e fk = Some (a, a, t) /\
+    match last with
+    | Some p => a = p /\ t = to_text fk NlLeading
+    | None => a = code_start /\ t = to_text fk NlTrailing
+    end.
+Proof. exact global_change_shape. Qed.
+Print Assumptions C13_global_change_shape.
+
 (* ---------------- verbatim-module-syntax *)
-Theorem C13_vms_all_changes_valid : forall kw_end total spans,
+Theorem C13_vms_all_changes_valid : forall kw_end total spans chs,
+  vms_all_changes kw_end (map Some spans) = Some chs ->
   spans_sorted kw_end total spans = true ->
-  valid_changes total (map ch_bytes (vms_all_changes kw_end spans)) = true.
+  valid_changes total (map ch_bytes chs) = true.
 Proof. exact vms_all_changes_valid. Qed.
 Print Assumptions C13_vms_all_changes_valid.
 
+Theorem C13_vms_all_changes_none : forall kw_end spans, In None spans -> vms_all_changes kw_end spans = None.
+Proof. exact vms_all_changes_none. Qed.
+Print Assumptions C13_vms_all_changes_none.
+
 Theorem C13_vms_all_fix_result : forall pre kw mid tyspan post,
-  apply_fix (utf8 (pre ++ kw ++ mid ++ tyspan ++ post))
-            (map ch_bytes (vms_all_changes (bytes (pre ++ kw))
-                             [(bytes (pre ++ kw) + bytes mid, bytes (pre ++ kw) + bytes mid + bytes tyspan)]))
-  = Some (utf8 (pre ++ kw ++ TYPE_LEAD ++ mid ++ post)).
+  exists chs,
+    vms_all_changes (bytes (pre ++ kw))
+       [Some (bytes (pre ++ kw) + bytes mid, bytes (pre ++ kw) + bytes mid + bytes tyspan)] = Some chs /\
+    apply_fix (utf8 (pre ++ kw ++ mid ++ tyspan ++ post)) (map ch_bytes chs)
+    = Some (utf8 (pre ++ kw ++ TYPE_LEAD ++ mid ++ post)).
 Proof. exact vms_all_fix_result. Qed.
 Print Assumptions C13_vms_all_fix_result.
 
-Theorem C13_vms_spec_fix_result : forall pre spec post,
-  apply_fix (utf8 (pre ++ spec ++ post)) [ch_bytes (vms_spec_change (bytes pre))]
-  = Some (utf8 (pre ++ TYPE_TRAIL ++ spec ++ post)).
+Theorem C13_vms_spec_fix_result : forall pre spec post c,
+  vms_spec_change true (bytes pre) = Some c ->
+  apply_fix (utf8 (pre ++ spec ++ post)) [ch_bytes c] = Some (utf8 (pre ++ TYPE_TRAIL ++ spec ++ post)).
 Proof. exact vms_spec_fix_result. Qed.
 Print Assumptions C13_vms_spec_fix_result.
+
+Theorem C13_vms_spec_change_only_named : forall start, vms_spec_change false start = None.
+Proof. exact vms_spec_change_only_named. Qed.
+Print Assumptions C13_vms_spec_change_only_named.
 
 (* ---------------- "apply the first fix repeatedly" terminates (GIVEN the per-fix decrease) *)
 Theorem C13_fix_loop_terminates : forall (T : Type) (step : T -> option T) (m : T -> nat),
